@@ -26,7 +26,7 @@ type HandSpec struct {
 	Label      string
 	Root       HandNode
 	LeafKind   string // "raw" | "pbfile" | "pbraw" | "mixed" (alternating raw / pbfile)
-	BlockSizes string // "all" | "none" | "short" (last entry missing)
+	BlockSizes string // "all" | "none" | "short" (last entry missing) | "long" (one spare trailing entry)
 	FileSize   bool
 	Tsize      bool
 }
@@ -70,7 +70,7 @@ func HandFamily() []HandSpec {
 	sortStrings(names)
 	for _, n := range names {
 		for _, lk := range []string{"raw", "pbfile", "pbraw", "mixed"} {
-			for _, bs := range []string{"all", "none", "short"} {
+			for _, bs := range []string{"all", "none", "short", "long"} {
 				for _, fs := range []bool{true, false} {
 					out = append(out, HandSpec{Label: fmt.Sprintf("hand %s leaves=%s blocksizes=%s filesize=%v", n, lk, bs, fs),
 						Root: shapes[n], LeafKind: lk, BlockSizes: bs, FileSize: fs, Tsize: true})
@@ -98,6 +98,9 @@ func HandByLabel(label string) (HandSpec, bool) {
 	}
 	return HandSpec{}, false
 }
+
+// Sized reports whether every interior node records the size of each child.
+func (h HandSpec) Sized() bool { return h.BlockSizes == "all" || h.BlockSizes == "long" }
 
 // Build writes the DAG into s and returns the root and the file content.
 func (h HandSpec) Build(s *store.Store) (cid.Cid, []byte) {
@@ -153,6 +156,8 @@ func (h HandSpec) Build(s *store.Store) (cid.Cid, []byte) {
 			d.Blocksizes = sizes
 		case "short":
 			d.Blocksizes = sizes[:len(sizes)-1]
+		case "long":
+			d.Blocksizes = append(append([]uint64{}, sizes...), 7)
 		}
 		if h.FileSize {
 			sz := uint64(len(content))
